@@ -120,6 +120,40 @@ def make_twin_file(src: Path) -> Path:
     return f
 
 
+def blocked_copy(c):
+    """Copy of the harness file in which condition c has one more precondition per blocked call
+    (the exact argument tuples CrossHair reported but which do not reproduce)."""
+    try:
+        src = c.file.read_text()
+        tree = ast.parse(src)
+        fn = next(n for n in tree.body if isinstance(n, ast.FunctionDef) and n.name == c.fn)
+        params = [a.arg for a in fn.args.args]
+        extra = []
+        for call in c.blocked:
+            node = ast.parse(call, mode="eval").body
+            vals = [ast.unparse(a) for a in node.args]
+            kw = {k.arg: ast.unparse(k.value) for k in node.keywords}
+            eqs = []
+            for i, p_ in enumerate(params):
+                v = vals[i] if i < len(vals) else kw.get(p_)
+                if v is not None:
+                    eqs.append(f"{p_} == {v}")
+            extra.append("    pre: not (" + " and ".join(eqs) + ")")
+        lines = src.split("\n")
+        # insert after the line with the opening docstring quotes of this function
+        i = fn.lineno
+        while '"""' not in lines[i]:
+            i += 1
+        lines[i + 1:i + 1] = extra
+        # keep line numbers of the def stable: extra lines go after the def line
+        d = Path(tempfile.mkdtemp(prefix="chblk", dir=os.environ.get("VERIF_SCRATCH", tempfile.gettempdir())))
+        f = d / c.file.name
+        f.write_text("\n".join(lines))
+        return f
+    except Exception:  # noqa: BLE001
+        return None
+
+
 def collect(module: str, timeout_s: int, only=None):
     file = HARNESS / f"{module}.py"
     cs = [Cond(module, fn, ln, ds, file) for fn, ln, ds in conditions_in(file) if only is None or only(fn)]
@@ -139,8 +173,26 @@ def run_all(conds, jobs: int, per_path=None, twin_timeout=30):
         out, dt = run_crosshair(c.file, c.line, c.timeout, per_path)
         c.seconds = dt
         c.verdict, c.detail = parse_verdict(out)
-        if c.verdict in ("cex", "exception"):
+        c.blocked = []
+        tries = 0
+        while c.verdict in ("cex", "exception"):
             c.replayed, c.replay_text = replay(c.module, call_of(c.detail))
+            if c.replayed is not False or tries >= 3:
+                break
+            # spurious model: block exactly these arguments and search again (DESIGN 1.1)
+            tries += 1
+            c.blocked.append(call_of(c.detail))
+            bf = blocked_copy(c)
+            if bf is None:
+                break
+            out, dt = run_crosshair(bf, c.line, c.timeout, per_path)
+            c.seconds += dt
+            c.verdict, c.detail = parse_verdict(out)
+            try:
+                bf.unlink()
+                bf.parent.rmdir()
+            except OSError:
+                pass
         if c.verdict == "confirmed":
             tout, tdt = run_crosshair(twins[c.module], c.line, twin_timeout, per_path)
             tv, _ = parse_verdict(tout)
